@@ -137,7 +137,11 @@ var c20Outcomes = []string{"normal", "eof0", "writeerr1", "writeerr2", "writeerr
 	// the application sends the configured password once more itself: pass-again-now = Conn.Pass(password) as soon
 	// as Connect has returned, while the registration lines may still be queued | pass-in-register = from a
 	// REGISTER handler of its own | pass-twice = twice in a row after the welcome
-	"pass-again-now", "pass-in-register", "pass-twice"}
+	"pass-again-now", "pass-in-register", "pass-twice",
+	// spam-during-connect: the server does not read for three minutes and another task of the application starts
+	// sending forty lines the moment the socket exists, so that the output queue may be full when the registration
+	// lines are queued
+	"spam-during-connect"}
 
 const (
 	c20LS  = ":srv CAP * LS :multi-prefix sasl away-notify"
@@ -334,6 +338,15 @@ func c20Scenario(pwIdx int, pw string, m c20Mode, outcome string) *explore.Scena
 		if outcome == "pass-in-register" {
 			c.HandleFunc(client.REGISTER, func(conn *client.Conn, _ *client.Line) { conn.Pass(pw) })
 		}
+		dialled := vx.NewCounter("dialled")
+		if outcome == "spam-during-connect" {
+			env.Go("spammer", func() {
+				dialled.WaitFor(1)
+				for i := 0; i < 40; i++ {
+					c.Raw(fmt.Sprintf("PRIVMSG #c :spam %d", i))
+				}
+			})
+		}
 		var vc *vx.Conn
 		env.ConnSetup = func(x *vx.Conn) {
 			vc = x
@@ -348,9 +361,10 @@ func c20Scenario(pwIdx int, pw string, m c20Mode, outcome string) *explore.Scena
 			if outcome == "eof0" || outcome == "tls-eof" {
 				x.PreloadEOF()
 			}
-			if outcome == "stall-pass" {
+			if outcome == "stall-pass" || outcome == "spam-during-connect" {
 				x.PreStall()
 			}
+			dialled.Add(1)
 			if outcome == "tls-garbage" {
 				x.Preload(":srv NOTICE AUTH :*** Looking up your hostname\r\n")
 			}
@@ -371,7 +385,7 @@ func c20Scenario(pwIdx int, pw string, m c20Mode, outcome string) *explore.Scena
 		case "pass-again-now":
 			c.Pass(pw)
 		}
-		if outcome == "stall-pass" {
+		if outcome == "stall-pass" || outcome == "spam-during-connect" {
 			vx.Sleep(3 * time.Minute)
 			vc.StallWrites(0)
 		}
@@ -397,7 +411,7 @@ func c20Scenario(pwIdx int, pw string, m c20Mode, outcome string) *explore.Scena
 			settle()
 		}
 		switch outcome {
-		case "user-pass", "reconnect-to", "rotate", "wipe", "pass-again-now", "pass-in-register", "pass-twice":
+		case "user-pass", "reconnect-to", "rotate", "wipe", "pass-again-now", "pass-in-register", "pass-twice", "spam-during-connect":
 			if m.Neg {
 				vc.SendLines(c20LS)
 				settle()
@@ -596,7 +610,7 @@ func c20EnumJob(name string, idx []int, pws []string) Job {
 func init() {
 	Register(&Prop{
 		ID:   "C20",
-		Rule: "passwords = marker \"Zq7Pw\" + variant and \"x\" + marker + variant for variant ∈ {p, PASS, ' lead', 'a b', ':c', '%s%d%!', '\\', '\\x01x', 600×z} (18 designed), plus marker + every printable ASCII byte (95) and a length ladder 1..2000 (12), plus five passwords of 1 to 4 bytes, shorter than the marker, made of bytes that occur nowhere else in the sessions, plus six passwords that are part of the text around them (PASS, SS, AS, S, P, PASS PASS), judged by position: the record that belongs to the PASS line must read '-> PASS ' + something without the password (thorough: + pairs of IRC/fmt/mask-significant bytes around the marker and fmt/IRC look-alikes); sessions = {plain, negotiation, tracking, both, plain without proxy, both without proxy, plain with flood protection, both with flood protection} × outcome {normal welcome + 11 lines + EOF, EOF at once, write error on write 1..4, dial error, empty cfg.Server, TLS handshake answered in plain text / by EOF, a second password (other marker) sent with Conn.Pass after registration, ConnectTo(other host, second password) while connected followed by Conn.Pass(first), Config.Pass overwritten (second password / empty) as soon as Connect returns, a second connect of the same client after a full first session, a server that does not read for three minutes after accepting, the configured password sent once more by the application (Conn.Pass as soon as Connect returns / from a REGISTER handler of its own / twice in a row after the welcome)}; enumeration jobs run every (password, session) once under the default schedule; exploration jobs run the failing-connection sessions of the 18 designed passwords under every schedule within the deviation budgets; the capturing logger records all four levels; distinct = distinct (password, session, sequence of (level, format) records, number of masked PASS records) resp. distinct canonical observation per explored scenario",
+		Rule: "passwords = marker \"Zq7Pw\" + variant and \"x\" + marker + variant for variant ∈ {p, PASS, ' lead', 'a b', ':c', '%s%d%!', '\\', '\\x01x', 600×z} (18 designed), plus marker + every printable ASCII byte (95) and a length ladder 1..2000 (12), plus five passwords of 1 to 4 bytes, shorter than the marker, made of bytes that occur nowhere else in the sessions, plus six passwords that are part of the text around them (PASS, SS, AS, S, P, PASS PASS), judged by position: the record that belongs to the PASS line must read '-> PASS ' + something without the password (thorough: + pairs of IRC/fmt/mask-significant bytes around the marker and fmt/IRC look-alikes); sessions = {plain, negotiation, tracking, both, plain without proxy, both without proxy, plain with flood protection, both with flood protection} × outcome {normal welcome + 11 lines + EOF, EOF at once, write error on write 1..4, dial error, empty cfg.Server, TLS handshake answered in plain text / by EOF, a second password (other marker) sent with Conn.Pass after registration, ConnectTo(other host, second password) while connected followed by Conn.Pass(first), Config.Pass overwritten (second password / empty) as soon as Connect returns, a second connect of the same client after a full first session, a server that does not read for three minutes after accepting, the configured password sent once more by the application (Conn.Pass as soon as Connect returns / from a REGISTER handler of its own / twice in a row after the welcome), another task filling the output queue while the connection is being made to a server that does not read}; enumeration jobs run every (password, session) once under the default schedule; exploration jobs run the failing-connection sessions of the 18 designed passwords under every schedule within the deviation budgets; the capturing logger records all four levels; distinct = distinct (password, session, sequence of (level, format) records, number of masked PASS records) resp. distinct canonical observation per explored scenario",
 		Assumptions: []string{
 			"the server never sends the password (recv logs every received line); asserted by the harness precondition",
 			"connections go through the in-memory network either via the registered proxy type or (modes +direct) via the Dialer shim that replaces net.Dialer in the instrumented copy; the TLS branch is executed with a handshake that fails (plain-text answer, EOF), never with one that succeeds",
@@ -623,7 +637,7 @@ func init() {
 			// single observation over all schedules within the budgets, so they are explored for the
 			// first password only (those jobs report themselves as vacuous) and otherwise run by the
 			// enumeration jobs.
-			outs := []string{"eof0", "writeerr1b", "writeerr2b", "writeerr3b", "writeerr4b", "rotate", "wipe"}
+			outs := []string{"eof0", "writeerr1b", "writeerr2b", "writeerr3b", "writeerr4b", "rotate", "wipe", "spam-during-connect"}
 			flat := []string{"writeerr1", "writeerr2", "writeerr3", "writeerr4", "dial-error", "no-server"}
 			deep := budgets
 			if tier == "thorough" {
